@@ -21,7 +21,9 @@ EXTENDS Naturals, Sequences, FiniteSets, TLC, SequencesExt, FiniteSetsExt
 \* ------------------------------------------------------------------ basics
 \* S.n : [<<gid,nid>> -> [cls, props]]      S.e : [{key,key} -> [cls, props]]
 \* S.doc : the "clipboard": last serialised document, or NoDoc
-NoDoc == [gid |-> "", n |-> <<>>, e |-> <<>>, ok |-> FALSE]
+\*   noid : node ids whose NodeID property has been removed from the text (a "tampered" document)
+\*   stamp : graph id stamped on each of the document's nodes (differs from gid only after tampering)
+NoDoc == [gid |-> "", n |-> <<>>, e |-> <<>>, ok |-> FALSE, noid |-> {}, stamp |-> <<>>]
 EmptyStore == [n |-> <<>>, e |-> <<>>, doc |-> NoDoc]
 
 Fn(f)          == [x \in DOMAIN f |-> f[x]]      \* normal form of a (possibly JSON-born) record
@@ -128,7 +130,7 @@ DeleteAll(S)      == Ok([S EXCEPT !.n = <<>>, !.e = <<>>])
 
 \* content of graph g as a document keyed by node id (what serialisation carries)
 DocOf(S, g) ==
-    [gid |-> g, ok |-> TRUE,
+    [gid |-> g, ok |-> TRUE, noid |-> {}, stamp |-> [x \in Nids(S, g) |-> g],
      n |-> [x \in Nids(S, g) |-> S.n[<<g, x>>]],
      e |-> [ek \in {{k[2] : k \in kk} : kk \in EKeysOf(S, g)} |->
                 S.e[{<<g, x>> : x \in ek}]]]
@@ -146,11 +148,24 @@ Export(S, g) ==
     IF KeysOf(S, g) = {} THEN OkR([S EXCEPT !.doc = NoDoc], [k |-> "anyof", s |-> {"nograph", "text"}])
     ELSE OkV([S EXCEPT !.doc = DocOf(S, g)], "text")
 
-\* entry in {"string","file"}: caller chooses the id; {"string_direct","file_direct"}: id read from the document
+\* harness-side editing of the serialised text (not a FIM call): drop one node's NodeID, or restamp one node's
+\* GraphID.  Models documents "lacking node ids" and "with mixed graph ids" (C01, C04, C20 fault paths).
+Tamper(S, kind, n, g2) ==
+    IF ~S.doc.ok \/ n \notin DOMAIN S.doc.n THEN Ok(S)
+    ELSE IF kind = "drop_nodeid" THEN Ok([S EXCEPT !.doc.noid = @ \cup {n}])
+    ELSE Ok([S EXCEPT !.doc.stamp = Upd(@, n, g2)])
+
+\* entry in {"string","file"}: caller chooses the id and every node must carry a NodeID;
+\* {"string_direct","file_direct"}: id read from the document, which must carry exactly one graph id
+\* (node ids are a documented precondition of the direct entries, so tampered-NodeID documents are not fed to them).
+\* A rejected import changes nothing.
 Import(S, entry, h) ==
     IF ~S.doc.ok THEN Fail(S, IErr)
-    ELSE IF entry \in {"string", "file"} THEN OkV(PutDoc(S, S.doc, h), h)
-    ELSE OkV(PutDoc(S, S.doc, S.doc.gid), S.doc.gid)
+    ELSE IF entry \in {"string", "file"} THEN
+         (IF S.doc.noid # {} THEN Fail(S, IErr) ELSE OkV(PutDoc(S, S.doc, h), h))
+    ELSE LET gs == {S.doc.stamp[x] : x \in DOMAIN S.doc.stamp} IN
+         IF Cardinality(gs) # 1 THEN Fail(S, IErr)
+         ELSE LET tg == CHOOSE x \in gs : TRUE IN OkV(PutDoc(S, S.doc, tg), tg)
 
 Clone(S, g, h) ==
     IF KeysOf(S, g) = {} THEN Fail(S, QErr)
@@ -299,6 +314,7 @@ Apply(S, o) ==
       [] o.op = "DeleteAll"       -> DeleteAll(S)
       [] o.op = "Export"          -> Export(S, o.g)
       [] o.op = "Import"          -> Import(S, o.entry, o.h)
+      [] o.op = "Tamper"          -> Tamper(S, o.kind, o.n, o.g2)
       [] o.op = "Clone"           -> Clone(S, o.g, o.h)
       [] o.op = "MergeNodes"      -> MergeNodes(S, o.g, o.n, o.h, o.pol)
       [] o.op = "GetNodeProps"    -> GetNodeProps(S, o.g, o.n)
@@ -324,13 +340,18 @@ ApplyOn(be, S, o) ==
 \* line that matches one is still REJECTED - with the deviation's name as the clause, so that it can be listed
 \* as a known finding precisely and any other disagreement on the same operation is still reported.
 TargetOf(S, o) == IF o.op = "Clone" THEN o.h
-                  ELSE IF o.entry \in {"string", "file"} THEN o.h ELSE S.doc.gid
+                  ELSE IF o.entry \in {"string", "file"} THEN o.h
+                  ELSE IF DOMAIN S.doc.stamp = {} THEN "" ELSE S.doc.stamp[CHOOSE x \in DOMAIN S.doc.stamp : TRUE]
 Deviation(be, S, o, out, T) ==
     IF /\ be = "disjoint" /\ o.op \in {"Clone", "Import"} /\ out = "ok"
        /\ (o.op = "Clone" => KeysOf(S, o.g) # {} /\ o.g # o.h) /\ (o.op = "Import" => S.doc.ok)
        /\ KeysOf(S, TargetOf(S, o)) # {}
        /\ T.n = S.n /\ T.e = S.e
     THEN "DisjointImportSkipsExisting"
+    ELSE IF /\ be = "shared" /\ o.op = "Import" /\ o.entry \in {"string", "file"} /\ S.doc.ok /\ S.doc.noid # {}
+            /\ out = IErr /\ KeysOf(S, o.h) # {}
+            /\ T.n = DropGraph(S, o.h).n /\ T.e = DropGraph(S, o.h).e
+    THEN "FailedImportDropsTarget"
     ELSE IF o.op = "Clone" /\ KeysOf(S, o.g) = {} /\ T.n = S.n /\ T.e = S.e /\ out \in {"AttributeError", "ok"}
     THEN "CloneOfMissingGraph"
     ELSE ""
@@ -338,6 +359,7 @@ Deviation(be, S, o, out, T) ==
 \* Graph ids an operation is allowed to touch (frame condition of C04)
 Touched(o) ==
     CASE o.op \in {"Clone"}                   -> {o.h}
+      [] o.op = "Tamper"                      -> {}
       [] o.op = "Import"                      -> {"*doc*"} \cup (IF "h" \in DOMAIN o THEN {o.h} ELSE {})
       [] o.op = "DeleteAll"                   -> {"*all*"}
       [] o.op = "MergeNodes"                  -> {o.g, o.h}
@@ -352,7 +374,8 @@ EdgesAnchored(S) == \A ek \in EKeys(S) : ek \subseteq Keys(S) /\ Cardinality(ek)
 \* frame condition: an operation changes only the graphs it is addressed to
 FrameOK(S, o, T) ==
     \A g \in Gids(S) \cup Gids(T) :
-        (g \notin Touched(o) /\ "*all*" \notin Touched(o) /\ ~("*doc*" \in Touched(o) /\ g = S.doc.gid))
+        (g \notin Touched(o) /\ "*all*" \notin Touched(o)
+            /\ ~("*doc*" \in Touched(o) /\ g \in {S.doc.stamp[x] : x \in DOMAIN S.doc.stamp}))
             => Content(S, g) = Content(T, g)
 
 =============================================================================
